@@ -53,16 +53,15 @@ func runC11(c *Ctx) {
 		}
 		c.Anchor("C11.1", tn)
 		enc := codecInfo{size: -1}
-		w.eachInstr(add, func(in ssa.Instruction) {
-			call, ok := in.(*ssa.Call)
-			if !ok || call.Call.StaticCallee() == nil {
+		w.eachCallThrough(add, 2, func(call *ssa.Call, rs func(ssa.Value) ssa.Value) {
+			if call.Call.StaticCallee() == nil {
 				return
 			}
 			switch call.Call.StaticCallee().Name() {
 			case "Add":
-				if k, isC := constInt(call.Call.Args[1]); isC {
+				if k, isC := constInt(rs(call.Call.Args[1])); isC {
 					enc.attr, enc.found, enc.how = k, true, "Message.Add"
-					l := a.rangeOfTerm(Term{Len: true, V: call.Call.Args[2]}, in, 3)
+					l := a.rangeOfTerm(Term{Len: true, V: call.Call.Args[2]}, call, 3)
 					if isNilConst(call.Call.Args[2]) {
 						l = ival{0, 0}
 					}
@@ -71,32 +70,31 @@ func runC11(c *Ctx) {
 					}
 				}
 			case "AddToAs":
-				if k, isC := constInt(call.Call.Args[len(call.Call.Args)-1]); isC {
+				if k, isC := constInt(rs(call.Call.Args[len(call.Call.Args)-1])); isC {
 					enc.attr, enc.found, enc.how = k, true, "AddToAs"
 				}
 			}
 		})
 		dec := codecInfo{size: -1}
 		checkAttr := int64(-1)
-		w.eachInstr(get, func(in ssa.Instruction) {
-			call, ok := in.(*ssa.Call)
-			if !ok || call.Call.StaticCallee() == nil {
+		w.eachCallThrough(get, 2, func(call *ssa.Call, rs func(ssa.Value) ssa.Value) {
+			if call.Call.StaticCallee() == nil {
 				return
 			}
 			switch call.Call.StaticCallee().Name() {
 			case "Get":
-				if k, isC := constInt(call.Call.Args[1]); isC {
+				if k, isC := constInt(rs(call.Call.Args[1])); isC {
 					dec.attr, dec.found, dec.how = k, true, "Message.Get"
 				}
 			case "GetFromAs":
-				if k, isC := constInt(call.Call.Args[len(call.Call.Args)-1]); isC {
+				if k, isC := constInt(rs(call.Call.Args[len(call.Call.Args)-1])); isC {
 					dec.attr, dec.found, dec.how = k, true, "GetFromAs"
 				}
 			case "CheckSize":
-				if k, isC := constInt(call.Call.Args[0]); isC {
+				if k, isC := constInt(rs(call.Call.Args[0])); isC {
 					checkAttr = k
 				}
-				if k, isC := constInt(call.Call.Args[2]); isC {
+				if k, isC := constInt(rs(call.Call.Args[2])); isC {
 					dec.size = k
 				}
 			}
